@@ -737,8 +737,12 @@ func (e *kvElection) StopWithContext(ctx context.Context, opts StopOptions) erro
 		return ctx.Err()
 	}
 
+	// A Start that overlapped the wait above has installed a fresh context and
+	// left STOPPED; only the stopped election's context is cleared.
 	e.mu.Lock()
-	e.ctx = nil
+	if s, _ := e.state.Load().(string); s == StateStopped {
+		e.ctx = nil
+	}
 	e.mu.Unlock()
 
 	log := e.getLogger()
